@@ -92,6 +92,10 @@ class Program(object):
                 L.append('      retry:')
                 L.append('        count: %s' % r['count'])
                 L.append('        delay: %s' % r.get('delay', 0))
+                # (the expressions read the workflow input: gt is true, gf is false)
+                for key in ('continue-on', 'break-on'):
+                    if r.get(key) is not None:
+                        L.append('        %s: <%% $.%s %%>' % (key, 'gt' if r[key] else 'gf'))
             for pol in ('wait-before', 'wait-after', 'timeout'):
                 if d.get(pol) is not None:
                     L.append('      %s: %s' % (pol, d[pol] if not d.get('pol_expr') else '<%% %d %%>' % d[pol]))
@@ -136,6 +140,8 @@ class Program(object):
                                 items=(d['with_items'] if d.get('with_items') is not None else -1),
                                 conc=(d['concurrency'] if d.get('concurrency') is not None else 0),
                                 retry=((d.get('retry') or {}).get('count', 0)), delay=((d.get('retry') or {}).get('delay', 0)),
+                                contOn={None: 'none', True: 'true', False: 'false'}[(d.get('retry') or {}).get('continue-on')],
+                                breakOn={None: 'none', True: 'true', False: 'false'}[(d.get('retry') or {}).get('break-on')],
                                 waitBefore=(d.get('wait-before') or 0), waitAfter=(d.get('wait-after') or 0),
                                 timeout=(d.get('timeout') or 0), pauseBefore=bool(d.get('pause-before')), failOn=bool(d.get('fail-on')))
                 inbound[t] = sorted(set(s for s in P.order for key in ('succ', 'err', 'comp')
@@ -146,7 +152,7 @@ class Program(object):
             # calls one is judged (clause CalledDefinition) instead of being unreadable
             for nm in sorted(self.subs):
                 tasks['decoy_%s' % nm] = dict(kind='action', join=0, succ=[], err=[], comp=[], requires=[], outcome=[['ok']], wf='decoy:%s' % nm,
-                                              sub='', items=-1, conc=0, retry=0, delay=0, waitBefore=0, waitAfter=0, timeout=0,
+                                              sub='', items=-1, conc=0, retry=0, delay=0, contOn='none', breakOn='none', waitBefore=0, waitAfter=0, timeout=0,
                                               pauseBefore=False, failOn=False)
                 inbound['decoy_%s' % nm] = []
         closure = []
@@ -165,7 +171,7 @@ class Program(object):
 CMDS = ['fail', 'succeed', 'noop']
 
 
-def gen_direct(rnd, n=None, partial_joins=True, p_publish=0.0, p_sub=0.0, p_items=0.0, p_retry=0.0, p_policy=0.0, p_join=0.9, p_join1=0.2, p_err=0.3, p_guard=0.3, p_cmd=0.15, p_comp=0.2, allow_cmd=True, max_out=2, p_pause=0.0, cmds=None, policy_on_joins=1.0):
+def gen_direct(rnd, n=None, partial_joins=True, p_publish=0.0, p_sub=0.0, p_items=0.0, p_retry=0.0, p_policy=0.0, p_join=0.9, p_join1=0.2, p_err=0.3, p_guard=0.3, p_cmd=0.15, p_comp=0.2, allow_cmd=True, max_out=2, p_pause=0.0, cmds=None, policy_on_joins=1.0, p_retry_expr=0.0):
     """Random direct DAG: edges go forward in the task order; a task with >= 2 inbound edges is a
     join (all / one / N) with probability p_join (otherwise it runs once per trigger)."""
     P = Program()
@@ -260,6 +266,11 @@ def gen_direct(rnd, n=None, partial_joins=True, p_publish=0.0, p_sub=0.0, p_item
         elif r < p_sub + p_items + p_retry and (not d.get('join') or rnd.random() < policy_on_joins):
             c = rnd.randint(1, 2)
             d['retry'] = {'count': c, 'delay': rnd.choice([0, 1])}
+            if rnd.random() < p_retry_expr:
+                d['retry'][rnd.choice(['continue-on', 'break-on'])] = rnd.choice([True, False])
+                if rnd.random() < 0.3:
+                    d['retry'].setdefault('continue-on', rnd.choice([True, False]))
+                    d['retry'].setdefault('break-on', rnd.choice([True, False]))
             P.oracle[t] = [rnd.choice(['ok', 'err']) for _ in range(c + 1)]
             P.flags['retry'] = True
         if rnd.random() < p_publish and d.get('kind', 'action') == 'action' and d.get('with_items') is None:
@@ -333,6 +344,14 @@ def policy_catalogue():
                     t['j']['join'] = -1
                 out.append(('retry2_%s_%s_d%d' % ('join' if joined else 'plain', last, delay),
                             prog(['a', 'b', 'j', 'z'], t, {'j': ['err', 'err', last]})))
+    # continue-on / break-on (constant expressions): a failing attempt with continue-on false or break-on true is not repeated, a
+    # successful one with continue-on true is
+    for nm, r, oc in (('retry_cont_false_err', {'count': 2, 'delay': 0, 'continue-on': False}, ['err', 'ok', 'ok']),
+                      ('retry_cont_true_ok', {'count': 2, 'delay': 0, 'continue-on': True}, ['ok', 'err', 'ok']),
+                      ('retry_break_true_err', {'count': 2, 'delay': 1, 'break-on': True}, ['err', 'ok', 'ok']),
+                      ('retry_break_false_err', {'count': 2, 'delay': 0, 'break-on': False}, ['err', 'err', 'ok']),
+                      ('retry_cont_true_break_true', {'count': 2, 'delay': 0, 'continue-on': True, 'break-on': True}, ['ok', 'err', 'ok'])):
+        out.append((nm, prog(['a', 'z'], {'a': {'retry': r, 'succ': [{'to': 'z'}], 'err': [{'to': 'z'}]}, 'z': {}}, {'a': oc})))
     out.append(('wait_before_timeout_late', prog(['a', 'b'], {'a': {'wait-before': 2, 'timeout': 3, 'succ': [{'to': 'b'}]}, 'b': {}}, {})))
     out.append(('wait_before_timeout_early', prog(['a', 'b'], {'a': {'wait-before': 3, 'timeout': 2, 'succ': [{'to': 'b'}], 'err': [{'to': 'b'}]}, 'b': {}}, {})))
     out.append(('wait_after_ok', prog(['a', 'b'], {'a': {'wait-after': 2, 'succ': [{'to': 'b'}]}, 'b': {}}, {})))
@@ -387,6 +406,86 @@ def items_over_subworkflows(n_items=2, conc=None, then=True):
     P.oracle = {'sub1x0': ['err'] * n_items + ['ok'], 't1': ['ok']}
     P.flags = {'sub': True, 'items': True}
     return P
+
+
+def join_of_kind(kind='action'):
+    """a, b -> j (join: all) -> z; j is an action or calls the sub-workflow sub1 (two action tasks)."""
+    P = Program()
+    P.order = ['a', 'b', 'j', 'z']
+    P.tasks = {'a': {'kind': 'action', 'succ': [{'to': 'j'}], 'err': [], 'comp': []}, 'b': {'kind': 'action', 'succ': [{'to': 'j'}], 'err': [], 'comp': []},
+               'j': {'kind': kind, 'join': -1, 'succ': [{'to': 'z'}], 'err': [], 'comp': []}, 'z': {'kind': 'action', 'succ': [], 'err': [], 'comp': []}}
+    if kind == 'workflow':
+        P.tasks['j']['workflow'] = 'sub1'
+        S = Program()
+        S.name = 'sub1'
+        S.order = ['sub1x0', 'sub1x1']
+        S.tasks = {'sub1x0': {'kind': 'action', 'succ': [{'to': 'sub1x1'}], 'err': [], 'comp': []}, 'sub1x1': {'kind': 'action', 'succ': [], 'err': [], 'comp': []}}
+        P.subs = {'sub1': S}
+        P.flags = {'sub': True}
+    return P
+
+
+def sub_beside_long_branch(length=3):
+    """t0 calls sub-workflow sub1 (one action task that fails first, then succeeds) and continues with t1; beside it a chain of
+    `length` plain tasks keeps the root workflow RUNNING after t0 has failed."""
+    P = Program()
+    P.order = ['t0', 't1'] + ['b%d' % i for i in range(length)]
+    P.tasks = {'t0': {'kind': 'workflow', 'workflow': 'sub1', 'succ': [{'to': 't1'}], 'err': [], 'comp': []}, 't1': {'kind': 'action', 'succ': [], 'err': [], 'comp': []}}
+    for i in range(length):
+        P.tasks['b%d' % i] = {'kind': 'action', 'succ': ([{'to': 'b%d' % (i + 1)}] if i + 1 < length else []), 'err': [], 'comp': []}
+    S = Program()
+    S.name = 'sub1'
+    S.order = ['sub1x0']
+    S.tasks = {'sub1x0': {'kind': 'action', 'succ': [], 'err': [], 'comp': []}}
+    P.subs = {'sub1': S}
+    P.oracle = {'sub1x0': ['err', 'ok']}
+    P.flags = {'sub': True}
+    return P
+
+
+def failing_shapes():
+    """The shapes of the three catalogues in which some action fails (what a rerun / skip can be applied to); the failing
+    action succeeds when it is executed once more."""
+    out = []
+    for nm, P in catalogue() + items_catalogue() + policy_catalogue():
+        bad = False
+        for tag, oc in list(P.oracle.items()):
+            if isinstance(oc, list) and 'err' in oc:
+                P.oracle[tag] = list(oc) + ['ok']
+                bad = True
+            elif isinstance(oc, dict) and any('err' in v for v in oc.values()):
+                P.oracle[tag] = {i: (list(v) + ['ok'] if 'err' in v else list(v)) for i, v in oc.items()}
+                bad = True
+        if bad:
+            out.append((nm, P))
+    return out
+
+
+def items_catalogue():
+    """Small with-items shapes (model-checked exhaustively by C07 and run on the real engine)."""
+    out = []
+
+    def prog(order, tasks, oracle):
+        P = Program()
+        P.order = list(order)
+        P.tasks = {k: dict({'kind': 'action', 'succ': [], 'err': [], 'comp': []}, **v) for k, v in tasks.items()}
+        P.oracle = dict(oracle)
+        P.flags = {'items': True}
+        return P
+    for n, conc in ((3, None), (3, 1), (3, 2), (2, 3), (2, None), (2, 1), (0, None), (0, 1)):
+        for bad in ((None, 1) if n else (None,)):
+            oc = {'a': {i: ['err' if i == bad else 'ok'] for i in range(n)}}
+            t = {'a': {'with_items': n, 'succ': [{'to': 'z'}], 'err': ([{'to': 'z'}] if bad is not None and conc == 2 else [])}, 'z': {}}
+            if conc:
+                t['a']['concurrency'] = conc
+            out.append(('items%d_c%s_%s' % (n, conc or 0, 'ok' if bad is None else 'err%d' % bad), prog(['a', 'z'], t, oc)))
+    # a with-items JOIN (the concurrency policy is not applied to it - KF-C07-1)
+    t = {'a': {'succ': [{'to': 'j'}]}, 'b': {'succ': [{'to': 'j'}]}, 'j': {'join': -1, 'with_items': 2, 'concurrency': 1, 'succ': [{'to': 'z'}]}, 'z': {}}
+    out.append(('items_join_c1', prog(['a', 'b', 'j', 'z'], t, {'j': {0: ['ok'], 1: ['ok']}})))
+    # two with-items tasks in parallel feeding a join
+    t = {'a': {'with_items': 2, 'concurrency': 1, 'succ': [{'to': 'j'}]}, 'b': {'with_items': 2, 'succ': [{'to': 'j'}]}, 'j': {'join': -1}}
+    out.append(('items_pair_join', prog(['a', 'b', 'j'], t, {'a': {0: ['ok'], 1: ['ok']}, 'b': {0: ['ok'], 1: ['err']}})))
+    return out
 
 
 def catalogue():
